@@ -836,7 +836,10 @@ def judge_routes(field, v, routes, entry, problems, stats, compare=True):
                 else:
                     problems.append((f'accepted-but-undecodable:{fname}', f'{entry}: the bytes sent for {sess.key} make the real decoder raise {info["cls"]} "{info["msg"]}" at {info["where"]}'))
                     return
-            if real_nlri is not None and compare:
+            raw_known = field is not None and field.name == 'attribute-code' and v in KNOWN_CODES
+            # (raw bytes under the code of an attribute the decoder knows are the operator's business: ORIGIN with
+            # the wrong flags is treat-as-withdraw on the reading side)
+            if real_nlri is not None and compare and not raw_known:
                 try:
                     want = str(sess.neighbor.resolve_self(route).nlri)
                 except Exception as e:
